@@ -153,3 +153,45 @@ package rpc
 //@   trusted
 //@   requires c != nil
 //@   modifies *
+
+// ---------------------------------------------------------------- the remaining functions of the package that lock
+
+//@ func Conn.newImportCallMessage -> err
+//@   props C09
+//@   locktypestate
+//@   partial lock
+//@   requires c != nil && nolocks()
+//@   loop 0 "range m.CapTable"
+//@     invariant nolocks()
+
+//@ func Conn.newPipelineCallMessage -> err
+//@   props C09
+//@   locktypestate
+//@   partial lock
+//@   requires c != nil && nolocks()
+//@   loop 0 "range transform"
+//@     invariant nolocks()
+//@   loop 1 "range m.CapTable"
+//@     invariant nolocks()
+
+//@ func answer.setPipelineCaller
+//@   props C09
+//@   locktypestate
+//@   partial lock
+//@   requires ans != nil && ans.c != nil && nolocks()
+
+// sendReturn and sendException are entered with the connection mutex held (and the sender lock, for
+// sendReturn's message) and return with the mutex held
+//@ func answer.sendReturn -> rl, err
+//@   props C08 C09
+//@   locktypestate
+//@   partial lock
+//@   requires ans != nil && ans.c != nil && onlyheld(&ans.c.mu)
+//@   ensures onlyheld(&ans.c.mu)
+
+//@ func answer.sendException -> rl
+//@   props C08 C09
+//@   locktypestate
+//@   partial lock
+//@   requires ans != nil && ans.c != nil && onlyheld(&ans.c.mu)
+//@   ensures onlyheld(&ans.c.mu)
